@@ -41,14 +41,22 @@ theorem layout_no_panic : ∀ (fs : List BFile) (acc : Int) (out : List GFile) (
     · simp
     · split
       · simp
-      · exact ih _ _ w
+      · split
+        · simp
+        · split
+          · simp
+          · exact ih _ _ w
+
+/-- a path MetadataComplete lets through: non-empty, every component usable as a name -/
+def GoodPath (p : List Bytes) : Prop := p ≠ [] ∧ ∀ c ∈ p, validComponent c = true
 
 theorem layout_spec : ∀ (fs : List BFile) (acc : Int) (out gf : List GFile) (l : Int),
     0 ≤ acc → acc ≤ maxInt64 → layout fs acc out = .ok (gf, l) →
     ∃ tail, gf = out.reverse ++ tail ∧ Contig tail acc ∧ l = acc + sumLen tail ∧
       acc ≤ l ∧ l ≤ maxInt64 ∧
       tail.map (·.length) = fs.map (·.length.toInt) ∧
-      tail.map (fun g => some g.path) = fs.map pickPath := by
+      tail.map (fun g => some g.path) = fs.map pickPath ∧
+      ∀ g ∈ tail, GoodPath g.path := by
   intro fs
   induction fs with
   | nil =>
@@ -64,22 +72,164 @@ theorem layout_spec : ∀ (fs : List BFile) (acc : Int) (out gf : List GFile) (l
     · rename_i p hp
       split at h
       · simp at h
-      · rename_i hlen
-        have hl0 : 0 ≤ f.length.toInt := by omega
-        have hl1 : f.length.toInt ≤ maxInt64 - acc := by omega
-        have hw : wrap64 (acc + f.length.toInt) = acc + f.length.toInt := by
-          apply wrap64_id <;> (unfold maxInt64 at *; omega)
-        rw [hw] at h
-        obtain ⟨tail, h1', h2', h3', h4', h5', h6', h7'⟩ :=
-          ih (acc + f.length.toInt) _ gf l (by omega) (by unfold maxInt64 at *; omega) h
-        refine ⟨{ path := p, offset := acc, length := f.length.toInt,
-                  padding := f.attr.contains 112 } :: tail, ?_⟩
-        refine ⟨by simp [h1'], ?_, ?_, ?_, h5', ?_, ?_⟩
-        · simp [Contig, hl0, h2']
-        · simp [sumLen]; omega
-        · omega
-        · simp [h6']
-        · simp [h7', hp]
+      · rename_i hpne
+        split at h
+        · simp at h
+        · rename_i hlen
+          split at h
+          · simp at h
+          · rename_i hvalid
+            have hl0 : 0 ≤ f.length.toInt := by omega
+            have hl1 : f.length.toInt ≤ maxInt64 - acc := by omega
+            have hw : wrap64 (acc + f.length.toInt) = acc + f.length.toInt := by
+              apply wrap64_id <;> (unfold maxInt64 at *; omega)
+            rw [hw] at h
+            obtain ⟨tail, h1', h2', h3', h4', h5', h6', h7', h8'⟩ :=
+              ih (acc + f.length.toInt) _ gf l (by omega) (by unfold maxInt64 at *; omega) h
+            refine ⟨{ path := p, offset := acc, length := f.length.toInt,
+                      padding := f.attr.contains 112 } :: tail, ?_⟩
+            refine ⟨by simp [h1'], ?_, ?_, ?_, h5', ?_, ?_, ?_⟩
+            · simp [Contig, hl0, h2']
+            · simp [sumLen]; omega
+            · omega
+            · simp [h6']
+            · simp [h7', hp]
+            · intro g hg
+              simp only [List.mem_cons] at hg
+              rcases hg with hg | hg
+              · subst hg
+                refine ⟨hpne, fun c hc => ?_⟩
+                have hall : p.all validComponent = true := by simpa using hvalid
+                exact List.all_eq_true.mp hall c hc
+              · exact h8' g hg
+
+/-! ### the duplicate / file-is-a-directory checks -/
+
+theorem dupCheck_no_panic : ∀ (fs : List GFile) (seen : List Bytes) (w : String),
+    dupCheck fs seen ≠ .panic w
+  | [], _, _ => by simp [dupCheck]
+  | f :: rest, seen, w => by
+    unfold dupCheck
+    split
+    · simp
+    · exact dupCheck_no_panic rest _ w
+
+theorem dirCheck_no_panic (keys : List Bytes) : ∀ (fs : List GFile) (w : String),
+    dirCheck keys fs ≠ .panic w
+  | [], _ => by simp [dirCheck]
+  | f :: rest, w => by
+    unfold dirCheck
+    split
+    · simp
+    · exact dirCheck_no_panic keys rest w
+
+theorem pathChecks_no_panic (fs : List GFile) (w : String) : pathChecks fs ≠ .panic w := by
+  unfold pathChecks
+  split
+  · exact dirCheck_no_panic _ _ _
+  · simp
+  · rename_i w' h; exact absurd h (dupCheck_no_panic _ _ _)
+
+theorem dupCheck_spec : ∀ (fs : List GFile) (seen keys : List Bytes),
+    dupCheck fs seen = .ok keys →
+    (∀ k, k ∈ keys ↔ k ∈ seen ∨ ∃ f ∈ fs, k = joinPath f.path) ∧
+    fs.Pairwise (fun a b => joinPath a.path ≠ joinPath b.path) ∧
+    ∀ f ∈ fs, joinPath f.path ∉ seen
+  | [], seen, keys, h => by
+    simp [dupCheck] at h
+    subst h
+    simp
+  | f :: rest, seen, keys, h => by
+    unfold dupCheck at h
+    split at h
+    · simp at h
+    · rename_i hns
+      have hns' : joinPath f.path ∉ seen := by simpa using hns
+      obtain ⟨h1, h2, h3⟩ := dupCheck_spec rest _ keys h
+      refine ⟨fun k => ?_, ?_, ?_⟩
+      · rw [h1 k]
+        simp only [List.mem_cons]
+        constructor
+        · rintro ((hk | hk) | ⟨g, hg, hk⟩)
+          · exact Or.inr ⟨f, Or.inl rfl, hk⟩
+          · exact Or.inl hk
+          · exact Or.inr ⟨g, Or.inr hg, hk⟩
+        · rintro (hk | ⟨g, hg | hg, hk⟩)
+          · exact Or.inl (Or.inr hk)
+          · subst hg; exact Or.inl (Or.inl hk)
+          · exact Or.inr ⟨g, hg, hk⟩
+      · rw [List.pairwise_cons]
+        refine ⟨fun g hg heq => ?_, h2⟩
+        have := h3 g hg
+        rw [← heq] at this
+        simp at this
+      · intro g hg
+        simp only [List.mem_cons] at hg
+        rcases hg with hg | hg
+        · subst hg; exact hns'
+        · have := h3 g hg
+          simp only [List.mem_cons, not_or] at this
+          exact this.2
+
+theorem dirCheck_spec (keys : List Bytes) : ∀ (fs : List GFile), dirCheck keys fs = .ok () →
+    ∀ f ∈ fs, ∀ q ∈ properPrefixes f.path, joinPath q ∉ keys
+  | [], _ => by simp
+  | f :: rest, h => by
+    unfold dirCheck at h
+    split at h
+    · simp at h
+    · rename_i hany
+      intro g hg q hq
+      simp only [List.mem_cons] at hg
+      rcases hg with hg | hg
+      · subst hg
+        intro hk
+        apply hany
+        rw [List.any_eq_true]
+        exact ⟨q, hq, by simpa using hk⟩
+      · exact dirCheck_spec keys rest h g hg q hq
+
+theorem mem_properPrefixes {p q : List Bytes} :
+    q ∈ properPrefixes p ↔ ∃ i, 1 ≤ i ∧ i < p.length ∧ q = p.take i := by
+  unfold properPrefixes
+  simp only [List.mem_map, List.mem_range'_1]
+  constructor
+  · rintro ⟨i, ⟨h1, h2⟩, rfl⟩
+    exact ⟨i, h1, by omega, rfl⟩
+  · rintro ⟨i, h1, h2, rfl⟩
+    exact ⟨i, ⟨h1, by omega⟩, rfl⟩
+
+/-- what passing both loops means for the file table -/
+theorem pathChecks_ok {fs : List GFile} (h : pathChecks fs = .ok ())
+    (hne : ∀ f ∈ fs, f.path ≠ []) :
+    fs.Pairwise (fun a b => a.path ≠ b.path) ∧
+    ∀ f ∈ fs, ∀ g ∈ fs, f.path <+: g.path → f.path = g.path := by
+  unfold pathChecks at h
+  split at h
+  · rename_i keys hd
+    obtain ⟨hk, hpw, _⟩ := dupCheck_spec fs [] keys hd
+    have hdir := dirCheck_spec keys fs h
+    refine ⟨hpw.imp (fun hab heq => hab (by rw [heq])), ?_⟩
+    intro f hf g hg hpre
+    apply Classical.byContradiction
+    intro hneq
+    have htake : f.path = g.path.take f.path.length := List.prefix_iff_eq_take.mp hpre
+    have hlen : f.path.length ≤ g.path.length := hpre.length_le
+    have hlt : f.path.length < g.path.length := by
+      apply Nat.lt_of_le_of_ne hlen
+      intro heq
+      apply hneq
+      rw [htake, heq, List.take_length]
+    have hpos : 1 ≤ f.path.length := by
+      have := hne f hf
+      cases hp : f.path with
+      | nil => exact absurd hp this
+      | cons _ _ => simp
+    have hq : f.path ∈ properPrefixes g.path :=
+      mem_properPrefixes.mpr ⟨f.path.length, hpos, hlt, htake⟩
+    exact hdir g hg _ hq ((hk _).mpr (Or.inr ⟨f, hf, rfl⟩))
+  · simp at h
+  · simp at h
 
 /-! ### what acceptance implies -/
 
@@ -117,7 +267,8 @@ theorem lengthAndFiles_ok {bi : BInfo} {multi : Bool} {files : List GFile} {leng
     (multi = false → files = [] ∧ length = bi.length.toInt ∧ 0 < length ∧ bi.files = none) ∧
     (multi = true → ∃ fs, bi.files = some fs ∧ bi.length.toInt ≤ 0 ∧
         files.map (·.length) = fs.map (·.length.toInt) ∧
-        files.map (fun g => some g.path) = fs.map pickPath) := by
+        files.map (fun g => some g.path) = fs.map pickPath) ∧
+    (∀ g ∈ files, GoodPath g.path) := by
   unfold lengthAndFiles at h
   split at h
   · rename_i hpos
@@ -128,7 +279,7 @@ theorem lengthAndFiles_ok {bi : BInfo} {multi : Bool} {files : List GFile} {leng
       obtain ⟨h1, h2, h3⟩ := h
       subst h1 h2 h3
       have := Int64.toInt_lt bi.length
-      refine ⟨by omega, by unfold maxInt64; omega, by simp [Contig], by simp, ?_, by simp⟩
+      refine ⟨by omega, by unfold maxInt64; omega, by simp [Contig], by simp, ?_, by simp, by simp⟩
       intro _
       refine ⟨rfl, rfl, by omega, ?_⟩
       cases hf : bi.files with
@@ -143,11 +294,11 @@ theorem lengthAndFiles_ok {bi : BInfo} {multi : Bool} {files : List GFile} {leng
         simp only [Res.ok.injEq, Prod.mk.injEq] at h
         obtain ⟨h1, h2, h3⟩ := h
         subst h1 h2 h3
-        obtain ⟨tail, t1, t2, t3, t4, t5, t6, t7⟩ :=
+        obtain ⟨tail, t1, t2, t3, t4, t5, t6, t7, t8⟩ :=
           layout_spec fs 0 [] gf l (by omega) (by unfold maxInt64; omega) hl
         simp at t1
         subst t1
-        refine ⟨by omega, t5, t2, ?_, by simp, ?_⟩
+        refine ⟨by omega, t5, t2, ?_, by simp, ?_, t8⟩
         · intro _; omega
         · intro _; exact ⟨fs, hfs, by omega, t6, t7⟩
       · simp at h
@@ -257,7 +408,7 @@ theorem pieces_no_panic {psLen : Int} {psize : UInt32} {length : Int} (hps : psL
 theorem mc_ok_inv {psLen : Int} {bi : BInfo} {g : Geom} (h : metadataComplete psLen bi = .ok g) :
     ∃ multi files length chunks name n,
       bi.pieces.length % 20 = 0 ∧ bi.pieceLength.toNat ≠ 0 ∧ bi.pieceLength.toNat % 16384 = 0 ∧
-      lengthAndFiles bi = .ok (multi, files, length) ∧
+      lengthAndFiles bi = .ok (multi, files, length) ∧ pathChecks files = .ok () ∧
       sizeChecks bi length = .ok chunks ∧ pickName bi = .ok name ∧
       piecesMetadataComplete psLen bi.pieceLength length = .ok n ∧
       g = { name := name, pieceLength := bi.pieceLength.toNat, length := length, multi := multi,
@@ -270,20 +421,29 @@ theorem mc_ok_inv {psLen : Int} {bi : BInfo} {g : Geom} (h : metadataComplete ps
     · simp at h
     · rename_i hpl
       obtain ⟨⟨multi, files, length⟩, hlf, h⟩ := bind_ok h
+      obtain ⟨⟨⟩, hpc, h⟩ := bind_ok h
       obtain ⟨chunks, hsz, h⟩ := bind_ok h
       obtain ⟨name, hnm, h⟩ := bind_ok h
       obtain ⟨n, hp, h⟩ := bind_ok h
       simp only [Res.ok.injEq] at h
-      exact ⟨multi, files, length, chunks, name, n, by omega, by omega, by omega, hlf, hsz, hnm, hp, h.symm⟩
+      exact ⟨multi, files, length, chunks, name, n, by omega, by omega, by omega, hlf, hpc, hsz, hnm, hp, h.symm⟩
 
 theorem pickName_ok {bi : BInfo} {name : Bytes} (h : pickName bi = .ok name) :
-    name = (if bi.name8 ≠ [] then bi.name8 else bi.name) ∧ name ≠ [] := by
+    name = (if bi.name8 ≠ [] then bi.name8 else bi.name) ∧ name ≠ [] ∧ validComponent name = true := by
   unfold pickName at h
-  by_cases h8 : bi.name8 = [] <;> by_cases hn : bi.name = [] <;> simp_all
+  generalize (if bi.name8 ≠ [] then bi.name8 else bi.name) = nm at h ⊢
+  by_cases h1 : nm = []
+  · simp [h1] at h
+  · by_cases h2 : validComponent nm = true
+    · simp [h1, h2] at h; subst h; exact ⟨rfl, h1, h2⟩
+    · simp [h1, h2] at h
 
 theorem pickName_no_panic (bi : BInfo) (w : String) : pickName bi ≠ .panic w := by
   unfold pickName
-  by_cases h8 : bi.name8 = [] <;> by_cases hn : bi.name = [] <;> simp_all
+  generalize (if bi.name8 ≠ [] then bi.name8 else bi.name) = nm
+  by_cases h1 : nm = []
+  · simp [h1]
+  · by_cases h2 : validComponent nm = true <;> simp [h1, h2]
 
 /-! ### the property theorems -/
 
@@ -299,7 +459,9 @@ theorem C13_no_panic (psLen : Int) (hps : psLen ≤ 0) (bi : BInfo) (w : String)
     · rename_i hpl
       rcases bind_panic h with h | ⟨⟨multi, files, length⟩, hlf, h⟩
       · exact lengthAndFiles_no_panic _ _ h
-      · obtain ⟨l0, l1, -, -, -, -⟩ := lengthAndFiles_ok hlf
+      · obtain ⟨l0, l1, -, -, -, -, -⟩ := lengthAndFiles_ok hlf
+        rcases bind_panic h with h | ⟨_, _, h⟩
+        · exact pathChecks_no_panic _ _ h
         rcases bind_panic h with h | ⟨chunks, hsz, h⟩
         · exact sizeChecks_no_panic l0 l1 _ h
         · obtain ⟨hlen, -, -⟩ := sizeChecks_ok l0 l1 hsz
@@ -312,11 +474,11 @@ theorem C13_no_panic (psLen : Int) (hps : psLen ≤ 0) (bi : BInfo) (w : String)
 /-- acceptance implies a self-consistent geometry (`Geom.Valid`) -/
 theorem C13_geometry {psLen : Int} {bi : BInfo} {g : Geom}
     (h : metadataComplete psLen bi = .ok g) : g.Valid := by
-  obtain ⟨multi, files, length, chunks, name, n, h20, hpl0, hpl16, hlf, hsz, hnm, hp, hg⟩ := mc_ok_inv h
-  obtain ⟨l0, l1, hcontig, hsum, hsingle, -⟩ := lengthAndFiles_ok hlf
+  obtain ⟨multi, files, length, chunks, name, n, h20, hpl0, hpl16, hlf, -, hsz, hnm, hp, hg⟩ := mc_ok_inv h
+  obtain ⟨l0, l1, hcontig, hsum, hsingle, -, -⟩ := lengthAndFiles_ok hlf
   obtain ⟨hlen, hchunks, hnp⟩ := sizeChecks_ok l0 l1 hsz
   obtain ⟨hn, hn'⟩ := pieces_ok hpl0 l0 hlen hp
-  obtain ⟨-, hname⟩ := pickName_ok hnm
+  obtain ⟨-, hname, -⟩ := pickName_ok hnm
   subst hg
   refine ⟨?_, ?_, l0, hcontig, hsum, ?_, hchunks, hn, ?_, hname⟩
   · simp only; omega
@@ -326,36 +488,39 @@ theorem C13_geometry {psLen : Int} {bi : BInfo} {g : Geom}
     have : ((bi.pieces.length / 20 : Nat) : Int) = (n : Int) := by rw [hnp, hn']
     omega
 
-/-- every file path is non-empty, given the decoder's contract (a present path list is
-    not empty); the code itself tests `path == nil` -/
+/-- every file path is non-empty — now tested by the code itself (`len(path) == 0`), for
+    every BInfo, whatever the decoder does with empty lists -/
 theorem C13_paths_nonempty {psLen : Int} {bi : BInfo} {g : Geom}
-    (h : metadataComplete psLen bi = .ok g) (hd : bi.DecoderShaped) : g.PathsNonEmpty := by
-  obtain ⟨multi, files, length, chunks, name, n, -, -, -, hlf, -, -, -, hg⟩ := mc_ok_inv h
-  obtain ⟨-, -, -, -, hsingle, hmulti⟩ := lengthAndFiles_ok hlf
+    (h : metadataComplete psLen bi = .ok g) : g.PathsNonEmpty := by
+  obtain ⟨multi, files, length, chunks, name, n, -, -, -, hlf, -, -, -, -, hg⟩ := mc_ok_inv h
+  obtain ⟨-, -, -, -, -, -, hgood⟩ := lengthAndFiles_ok hlf
   subst hg
   intro f hf
-  simp only at hf
-  cases hm : multi with
-  | false => rw [(hsingle hm).1] at hf; simp at hf
-  | true =>
-    obtain ⟨fs, hfs, -, -, hpaths⟩ := hmulti hm
-    obtain ⟨i, hi, hget⟩ := List.getElem_of_mem hf
-    have hlen : files.length = fs.length := by
-      have := congrArg List.length hpaths; simpa using this
-    have hi' : i < fs.length := by omega
-    have hpi : some f.path = pickPath fs[i] := by
-      have := congrArg (fun l => l[i]?) hpaths
-      simp [hi, hi', hget] at this
-      exact this
-    have hmem : fs[i] ∈ fs := List.getElem_mem hi'
-    obtain ⟨hp1, hp2⟩ := hd fs hfs _ hmem
-    intro hempty
-    rw [hempty] at hpi
-    unfold pickPath at hpi
-    split at hpi
-    · rename_i p hp8
-      simp at hpi; subst hpi; exact hp2 hp8
-    · exact hp1 hpi.symm
+  exact (hgood f hf).1
+
+/-- the file table and the name are usable as a namespace (C20's `WFfiles` + `nameOK`):
+    the name and every path component are non-empty, not "." or "..", without '/'; every
+    path is non-empty; paths are pairwise distinct; no path is a proper prefix of another -/
+theorem C13_paths_wellformed {psLen : Int} {bi : BInfo} {g : Geom}
+    (h : metadataComplete psLen bi = .ok g) :
+    validComponent g.name = true ∧
+    (∀ f ∈ g.files, f.path ≠ []) ∧
+    (∀ f ∈ g.files, ∀ c ∈ f.path, validComponent c = true) ∧
+    g.files.Pairwise (fun a b => a.path ≠ b.path) ∧
+    (∀ f ∈ g.files, ∀ f' ∈ g.files, f.path <+: f'.path → f.path = f'.path) := by
+  obtain ⟨multi, files, length, chunks, name, n, -, -, -, hlf, hpc, -, hnm, -, hg⟩ := mc_ok_inv h
+  obtain ⟨-, -, -, -, -, -, hgood⟩ := lengthAndFiles_ok hlf
+  obtain ⟨-, -, hvn⟩ := pickName_ok hnm
+  obtain ⟨hpw, hpre⟩ := pathChecks_ok hpc (fun f hf => (hgood f hf).1)
+  subst hg
+  exact ⟨hvn, fun f hf => (hgood f hf).1, fun f hf => (hgood f hf).2, hpw, hpre⟩
+
+/-- a usable component: non-empty and free of '/' (what C20's `compOK` asks) -/
+theorem validComponent_spec {c : Bytes} (h : validComponent c = true) :
+    c ≠ [] ∧ c.contains 47 = false ∧ c ≠ [46] ∧ c ≠ [46, 46] := by
+  unfold validComponent at h
+  simp only [Bool.and_eq_true, bne_iff_ne, ne_eq, Bool.not_eq_true'] at h
+  exact ⟨h.1.1.1, h.2, h.1.1.2, h.1.2⟩
 
 /-- error or valid, nothing in between -/
 theorem C13_reject_or_valid (psLen : Int) (hps : psLen ≤ 0) (bi : BInfo) :
@@ -375,9 +540,9 @@ theorem C13_geometry_faithful {psLen : Int} {bi : BInfo} {g : Geom}
     (g.multi = true → ∃ fs, bi.files = some fs ∧ bi.length.toInt ≤ 0 ∧
         g.files.map (·.length) = fs.map (·.length.toInt) ∧
         g.files.map (fun f => some f.path) = fs.map pickPath) := by
-  obtain ⟨multi, files, length, chunks, name, n, h20, -, -, hlf, -, hnm, -, hg⟩ := mc_ok_inv h
-  obtain ⟨-, -, -, -, hsingle, hmulti⟩ := lengthAndFiles_ok hlf
-  obtain ⟨hname, -⟩ := pickName_ok hnm
+  obtain ⟨multi, files, length, chunks, name, n, h20, -, -, hlf, -, -, hnm, -, hg⟩ := mc_ok_inv h
+  obtain ⟨-, -, -, -, hsingle, hmulti, -⟩ := lengthAndFiles_ok hlf
+  obtain ⟨hname, -, -⟩ := pickName_ok hnm
   subst hg
   refine ⟨rfl, by simp only; omega, hname, ?_, ?_⟩
   · intro hm
@@ -411,6 +576,23 @@ example : metadataComplete 0 exMulti =
           files := [{ path := [[97]], offset := 0, length := 5, padding := false },
                     { path := [[98]], offset := 5, length := 0, padding := true }],
           nInFlight := 1, nPieces := 1, nHashes := 1 } := by decide +kernel
+
+def exDup : BInfo :=
+  { name := [120], name8 := [], pieceLength := 16384, pieces := List.replicate 20 0, length := 0,
+    files := some [{ path := some [[97]], path8 := none, length := 5, attr := [] },
+                   { path := some [[97]], path8 := none, length := 1, attr := [] }] }
+example : metadataComplete 0 exDup = .err .dupPath := by decide +kernel
+
+def exDir : BInfo :=
+  { name := [120], name8 := [], pieceLength := 16384, pieces := List.replicate 20 0, length := 0,
+    files := some [{ path := some [[97], [98]], path8 := none, length := 5, attr := [] },
+                   { path := some [[97]], path8 := none, length := 1, attr := [] }] }
+example : metadataComplete 0 exDir = .err .fileIsDir := by decide +kernel
+
+def exBadName : BInfo :=
+  { name := [46, 46], name8 := [], pieceLength := 16384, pieces := List.replicate 20 0,
+    length := 5, files := none }
+example : metadataComplete 0 exBadName = .err .badName := by decide +kernel
 
 /-! ### magnets -/
 
